@@ -25,12 +25,21 @@ LEVEL_NOTE = ("Trusted: vf.refs.consensus (generator + view, self-tested against
               "every relay carries at least one flag; v/pr/m items are not generated (Tor's control port does not write them).")
 RULE = ("a case = a pool of 3-40 relays and a sequence of 1-5 documents drawn from it (relays joining/leaving, nicknames "
         "from a small pool so duplicates occur, flags / a-lines / w-line / p-line appearing, changing and disappearing), "
-        "delivered as ns/all then NEWCONSENSUS under a chosen segmentation. Distinct = hash of the documents. "
+        "delivered as ns/all then NEWCONSENSUS under a chosen segmentation; ~5 % of the documents list no relay at all "
+        "(empty ns/all in block and inline form, empty replacement document); after ~45 % of the documents identities the "
+        "document does not list (relays that left, bridges, boundary ids; $hex, $hex~nick, $hex=nick) are looked up through "
+        "router_from_id() or a CIRC event path and every index is compared with the document again. "
+        "Distinct = hash of the documents. "
         "Non-trivial = at least one document was delivered and its relay view compared.")
 ASSUMPTIONS = [
     "documents are well-formed per dir-spec 3.4.1: item order r, a*, s, w?, p?; identities unique within a document",
     "every relay has at least one flag (consensus entries are Running/Valid); nicknames differ by more than letter case",
-    "entry-guards, circuit-status and stream-status are empty, so no relay object is created outside the documents",
+    "entry-guards, circuit-status and stream-status are empty; relay objects outside the documents arise only from the "
+    "harness's own lookups of unlisted identities (router_from_id / CIRC LAUNCHED|EXTENDED paths)",
+    "what router_from_id() returns for an identity no document lists is not judged, and TorState.routers (the lookup "
+    "table) may remember such placeholders; routers_by_hash, routers_by_name, all_routers, guards and authorities may not",
+    "a replacement document that lists no relay must empty the view (the statement's 'equals the latest document'); "
+    "Tor itself suppresses a NEWCONSENSUS event without entries, so this limit case carries its own class +empty-document",
     "flag order, the form (str/int) of port values and 0 vs None for an absent bandwidth are not judged",
     "publication time, descriptor digest and exit policy are not named by the statement and not judged",
 ]
@@ -52,13 +61,15 @@ ANCHORS = [
 FLOORS = {
     "quick": {"evaluations": 500, "documents_compared": 800, "relays_compared": 9000,
               "lookups_compared": 30000, "reused_relays_seen": 4000, "object_identity_checks": 4000,
-              "collections_compared": 1600, "codec_roundtrips": 2000,
+              "collections_compared": 1600, "codec_roundtrips": 2000, "empty_documents": 60,
+              "unlisted_identity_lookups": 600, "views_recompared_after_lookups": 350, "circ_events_with_paths": 150,
               "reach:txtorcon.torstate:TorState._create_router": 9000,
               "reach:txtorcon.torstate:TorState._update_network_status": 400,
               "reach:txtorcon.torstate:TorState.router_from_id": 30000},
     "thorough": {"evaluations": 50000, "documents_compared": 40000, "relays_compared": 500000,
                  "lookups_compared": 1500000, "reused_relays_seen": 250000, "object_identity_checks": 250000,
-                 "collections_compared": 80000, "codec_roundtrips": 100000,
+                 "collections_compared": 80000, "codec_roundtrips": 100000, "empty_documents": 3000,
+                 "unlisted_identity_lookups": 30000, "views_recompared_after_lookups": 18000, "circ_events_with_paths": 7000,
                  "reach:txtorcon.torstate:TorState._create_router": 500000,
                  "reach:txtorcon.torstate:TorState._update_network_status": 25000},
 }
@@ -157,8 +168,42 @@ def gen_case(rnd):
         doc = [copy_relay(r) for r in pool.values() if rnd.random() < knobs["present"]]
         if not doc:
             doc = [copy_relay(rnd.choice(list(pool.values())))]
+        if rnd.random() < (0.06 if k == 0 else 0.05):
+            doc = []        # limit case: Tor has no consensus yet (ns/all) / every relay left
         docs.append(doc)
-    return {"docs": docs, "chunking": rnd.choice([[1 << 30], [1 << 30], [4096], [997], [rnd.randint(40, 400)],
+    probes = []
+    for k in range(ndocs):
+        if rnd.random() < 0.45:
+            listed = [r["id"] for r in docs[k]]
+            left = sorted(set(pool) - set(listed))
+            unl = []
+            for _ in range(rnd.choice([1, 1, 2, 3])):
+                r = rnd.random()
+                if left and r < 0.5:
+                    unl.append(rnd.choice(left))                   # relay of the pool not in this document
+                elif r < 0.6:
+                    unl.append(rnd.choice(BOUNDARY_IDS))
+                else:
+                    unl.append("%040X" % rnd.getrandbits(160))     # bridge / relay Tor knows from elsewhere
+            unl = [u for u in dict.fromkeys(unl) if u not in listed]
+            forms = []
+            for u in unl:
+                f = rnd.choice(["hex", "hex~nick", "hex=nick"])
+                forms.append("$" + u + {"hex": "", "hex~nick": "~" + rnd.choice(NICKS), "hex=nick": "=" + rnd.choice(NICKS)}[f])
+            pr = {"lookup": [], "circ": None}
+            if rnd.random() < 0.6:
+                pr["lookup"] = forms
+            else:
+                path = list(forms)
+                for r in rnd.sample(docs[k], min(len(docs[k]), rnd.randint(0, 2))):
+                    path.insert(rnd.randint(0, len(path)), "$%s~%s" % (r["id"], r["nick"]))
+                pr["circ"] = {"id": rnd.randint(1, 9999), "status": rnd.choice(["EXTENDED", "LAUNCHED", "EXTENDED"]),
+                              "path": path}
+            probes.append(pr)
+        else:
+            probes.append(None)
+    return {"docs": docs, "probes": probes, "ns_form": rnd.choice(["block", "inline"]),
+            "chunking": rnd.choice([[1 << 30], [1 << 30], [4096], [997], [rnd.randint(40, 400)],
                                                   [rnd.randint(1, 64), rnd.randint(200, 2000)]])}
 
 
@@ -235,7 +280,10 @@ def run_case(case, rec):
             flags["hard"] = True
 
     tor = FakeTor()
-    tor.info.update({"ns/all": CS.document_lines(docs[0]), "circuit-status": "", "stream-status": "",
+    first = CS.document_lines(docs[0])
+    if not first and case.get("ns_form") == "inline":
+        first = ""                  # Tor answers "250-ns/all=" when it knows no relay at all
+    tor.info.update({"ns/all": first, "circuit-status": "", "stream-status": "",
                      "address-mappings/all": "", "entry-guards": ""})
     proto = TorControlProtocol()
     link = Link(proto, tor, case.get("chunking") or (1 << 30,)).connect()
@@ -252,9 +300,19 @@ def run_case(case, rec):
               {"post_bootstrap": repr(done)[:160], "exceptions": link.exceptions[:2], "logged": errs[:2],
                "commands_seen": tor.lines[6:]}, hard=True)
             return reported
+        probes = case.get("probes") or []
+        asked = set()
         prev = judge(st, docs, 0, prev, rec, V, flags)
-        for k in range(1, len(docs)):
+        for k in range(1, len(docs) + 1):
             if flags["hard"]:
+                break
+            # between documents: identity lookups for relays the document does not list
+            pr = probes[k - 1] if k - 1 < len(probes) else None
+            if pr:
+                between(st, tor, link, docs, k - 1, pr, asked, rec, V)
+                if not flags["hard"]:
+                    prev = judge(st, docs, k - 1, prev, rec, V, flags, asked=asked, phase="after-unlisted-identity-lookups")
+            if k == len(docs) or flags["hard"]:
                 break
             if not tor.emit("NEWCONSENSUS", "", "data", CS.document_lines(docs[k])):
                 V("not-subscribed", "NEWCONSENSUS", {"subscribed": sorted(tor.subscribed)}, hard=True)
@@ -265,22 +323,64 @@ def run_case(case, rec):
                 V("update-raised", "entry-with-p-without-w" if has_p_without_w(docs, k) else "general",
                   {"document": k, "logged": errs[:2], "exceptions": link.exceptions[:2]}, hard=True)
                 break
-            prev = judge(st, docs, k, prev, rec, V, flags)
+            prev = judge(st, docs, k, prev, rec, V, flags, asked=asked)
     finally:
         CAPTURE.take()
         rec.case(case, nontrivial=flags["compared"])
     return reported
 
 
+def between(st, tor, link, docs, k, pr, asked, rec, V):
+    """identity lookups between two documents: router_from_id() directly, or a CIRC event
+    whose path names the relays (control-spec 4.1.1: LongName = $hex [~/= nick])"""
+    listed = {CS.fingerprint(r["id"]): r for r in docs[k]}
+    for key in pr.get("lookup") or []:
+        rec.count("unlisted_identity_lookups")
+        asked.add(key[:41])
+        try:
+            st.router_from_id(key)
+        except KeyError:
+            pass
+        except Exception as e:
+            V("lookup-by-identity", "unlisted:raised", {"document": k, "key": key, "exc": repr(e)})
+    c = pr.get("circ")
+    if c:
+        for el in c["path"]:
+            if el[:41] not in listed:
+                asked.add(el[:41])
+                rec.count("unlisted_identity_lookups")
+        text = "%d %s %s PURPOSE=GENERAL" % (c["id"], c["status"], ",".join(c["path"]))
+        if not tor.emit("CIRC", text):
+            V("not-subscribed", "CIRC", {"subscribed": sorted(tor.subscribed)}, hard=True)
+            return
+        link.pump()
+        rec.count("circ_events_with_paths")
+        errs = CAPTURE.take()
+        if errs or link.exceptions:
+            V("circ-event-raised", "path-with-unlisted-relay", {"document": k, "event": text, "logged": errs[:2],
+                                                                "exceptions": link.exceptions[:2]}, hard=True)
+            return
+        circ = st.circuits.get(c["id"])
+        path = list(getattr(circ, "path", [])) if circ is not None else None
+        if path is not None and len(path) == len(c["path"]):
+            for el, r in zip(c["path"], path):
+                if el[:41] in listed:
+                    rec.count("lookups_compared")
+                    if r is not st.routers_by_hash.get(el[:41]):
+                        V("lookup-by-identity", "circuit-path", {"document": k, "element": el,
+                                                                 "got": getattr(r, "id_hex", None)})
+
+
 def ids_of(routers):
     return sorted(getattr(r, "id_hex", None) or "?" for r in routers)
 
 
-def judge(st, docs, k, prev, rec, V, flags):
+def judge(st, docs, k, prev, rec, V, flags, asked=(), phase=None):
     want = CS.view(docs[k])
     wids = set(want["relays"])
-    pw = has_p_without_w(docs, k)
-    rec.count("documents_compared")
+    rec.count("documents_compared" if phase is None else "views_recompared_after_lookups")
+    if not docs[k]:
+        rec.count("empty_documents")
     rec.seen("document_shapes", "doc%d relays=%s dupnicks=%s guards=%s auth=%s" % (
         k, min(len(wids) // 10 * 10, 40), min(len(want["duplicate"]), 3), min(len(want["guards"]), 3),
         min(len(want["authorities"]), 3)))
@@ -310,7 +410,9 @@ def judge(st, docs, k, prev, rec, V, flags):
     indexes = {
         "all_routers": [getattr(r, "id_hex", None) for r in st.all_routers],
         "routers_by_hash": list(st.routers_by_hash.keys()),
-        "routers": [key for key in st.routers.keys() if key.startswith("$")],
+        # the lookup table may remember the placeholders router_from_id() handed out for
+        # identities no document lists (leniency: the statement is silent on caching them)
+        "routers": [key for key in st.routers.keys() if key.startswith("$") and (key in wids or key not in asked)],
         "routers_by_name": [getattr(r, "id_hex", None) for lst in st.routers_by_name.values() for r in lst],
     }
     bad_set = False
@@ -321,7 +423,8 @@ def judge(st, docs, k, prev, rec, V, flags):
         for kind, lst in (("stale", stale), ("missing", missing), ("listed-twice", twice)):
             if lst:
                 bad_set = True
-                V("relay-set-mismatch", "%s:%s%s" % (name, kind, "+entry-with-p-without-w" if pw else ""),
+                V("relay-set-mismatch", "%s:%s%s%s" % (name, kind, "+empty-document" if not docs[k] else "",
+                                                         "+" + phase if phase else ""),
                   {"document": k, "index": name, kind: lst[:4], "n": len(lst), "document_relays": len(wids)}, hard=True)
     if bad_set:
         return prev
